@@ -100,6 +100,7 @@ class Conn:
         self.inbuf = b""   # request bytes accepted so far and not yet framed
         self.outq = b""    # reply bytes waiting to be read
         self.closed = False
+        self.eof = False   # end of stream has been reported to a read: it stays (a real stream never resumes after it)
 
 
 class SimNet:
@@ -160,7 +161,9 @@ class SimNet:
             want = a[1]
             idx = self.io_idx
             self.io_idx += 1
-            if self.plan is not None and hasattr(self.plan, "on_read"):
+            if c.eof:
+                r = b""
+            elif self.plan is not None and hasattr(self.plan, "on_read"):
                 r = self.plan.on_read(c, want, idx)
             elif c.outq:
                 r = c.outq[:want]
@@ -173,6 +176,8 @@ class SimNet:
                 self.events.append(T("read", [c.host, want, T("fail", [T(r[1])])]))
                 return T("fail", [T(r[1])])
             r = bytes(r[:want])
+            if want > 0 and not r:
+                c.eof = True
             c.outq = c.outq[len(r):] if c.outq.startswith(r) else c.outq
             self.events.append(T("read", [c.host, want, T("data", [r])]))
             return T("data", [r])
